@@ -202,3 +202,35 @@ package routing
 //@   structural only
 //@   kernel
 //@   states storedMass
+
+// =====================================================================
+// Generated wrapper of Muskingum (C04, C05): hand-written pilot of the wrapper schema
+// =====================================================================
+
+//@ func (*Muskingum).ApplyParameters(m, parameters)
+//@   ndmodel locations
+//@   requires parameters.rank == 2 && parameters.dim(0) >= 3 && parameters.dim(1) >= 1
+//@   assigns m.K, m.X, m.DeltaT
+//@   ensures [C04.param-view] m.K.rank == 1 && m.K.dim(0) == parameters.dim(1) && m.K.root == parameters.root && forall(c, 0, parameters.dim(1), m.K.idx(c) == parameters.idx(0, c))
+//@   ensures [C04.param-view] m.X.rank == 1 && m.X.dim(0) == parameters.dim(1) && m.X.root == parameters.root && forall(c, 0, parameters.dim(1), m.X.idx(c) == parameters.idx(1, c))
+//@   ensures [C04.param-view] m.DeltaT.rank == 1 && m.DeltaT.dim(0) == parameters.dim(1) && m.DeltaT.root == parameters.root && forall(c, 0, parameters.dim(1), m.DeltaT.idx(c) == parameters.idx(2, c))
+
+//@ func (*Muskingum).Run(m, inputs, states, outputs)
+//@   ndmodel locations
+//@   requires inputs.rank == 3 && states.rank == 2 && outputs.rank == 3
+//@   requires inputs.dim(0) >= 1 && inputs.dim(1) == 2 && inputs.dim(2) >= 0 && states.dim(0) >= 0 && states.dim(1) == 3
+//@   requires outputs.dim(0) >= states.dim(0) && outputs.dim(1) >= 1 && outputs.dim(2) >= inputs.dim(2)
+//@   requires injective(states) && injective(outputs) && injective(inputs)
+//@   requires inputs.root != states.root && inputs.root != outputs.root && states.root != outputs.root
+//@   requires m.K != nil && m.X != nil && m.DeltaT != nil
+//@   requires m.K.rank == 1 && m.K.dim(0) >= 1 && m.X.rank == 1 && m.X.dim(0) >= 1 && m.DeltaT.rank == 1 && m.DeltaT.dim(0) >= 1
+//@   requires m.K.root != states.root && m.K.root != outputs.root && m.X.root != states.root && m.X.root != outputs.root && m.DeltaT.root != states.root && m.DeltaT.root != outputs.root
+//@   writes wroot == states.root && exists(s, 0, states.dim(1), widx == states.idx(i, s))
+//@   writes wroot == outputs.root && exists(o, 0, outputs.dim(1), exists(t, 0, outputs.dim(2), widx == outputs.idx(i, o, t)))
+//@   callsite muskingum [C04.arg-input] arg0.dim(0) == inputs.dim(2) && arg0.root == inputs.root && forall(t, 0, inputs.dim(2), arg0.idx(t) == inputs.idx(i % inputs.dim(0), 0, t))
+//@   callsite muskingum [C04.arg-input] arg1.dim(0) == inputs.dim(2) && arg1.root == inputs.root && forall(t, 0, inputs.dim(2), arg1.idx(t) == inputs.idx(i % inputs.dim(0), 1, t))
+//@   callsite muskingum [C04.arg-state] arg2 == states.elem(i, 0) && arg3 == states.elem(i, 1) && arg4 == states.elem(i, 2)
+//@   callsite muskingum [C04.arg-param] arg5 == m.K.elem(i % m.K.dim(0)) && arg6 == m.X.elem(i % m.X.dim(0)) && arg7 == m.DeltaT.elem(i % m.DeltaT.dim(0))
+//@   callsite muskingum [C04.arg-output] arg8.dim(0) == inputs.dim(2) && arg8.root == outputs.root && forall(t, 0, inputs.dim(2), arg8.idx(t) == outputs.idx(i, 0, t))
+//@   atsend [C04.state-back] states.elem(i, 0) == s && states.elem(i, 1) == previnflow && states.elem(i, 2) == prevoutflow
+//@   loop 0 invariant 0 <= j && j <= numCells
